@@ -27,6 +27,15 @@ type c13Base struct {
 	Name string
 	Cfg  *refcfg.CertCfg
 	Prof *refcfg.ProfileCfg
+	// KeyFix: the entity's existing key ("" = P-256-0)
+	KeyFix string
+}
+
+func (b c13Base) keyPEM() []byte {
+	if b.KeyFix != "" {
+		return FixtureKeyPEM(b.KeyFix)
+	}
+	return FixtureKeyPEM("P-256-0")
 }
 
 func c13Clone(b c13Base) c13Base {
@@ -92,6 +101,22 @@ func c13Bases() []c13Base {
 	out = append(out, mk("manip", func(c *refcfg.CertCfg) {
 		c.Manip = &refcfg.Manip{Version: refcfg.I64(1), TbsSig: refcfg.S("1.2.3.4")}
 	}))
+	// every manipulation key at once on a self-signed RSA entity (identifiers with NULL parameters)
+	{
+		b := mk("manip-all-rsa-root", func(c *refcfg.CertCfg) {
+			c.Issuer, c.KeyAlg, c.SigAlg = "", "RSA-1024", "RSAwithSHA256"
+			c.Manip = &refcfg.Manip{Version: refcfg.I64(3), OuterSigAlg: refcfg.S("1.2.3.4"), SigValue: refcfg.Bin([]byte{1, 2, 3}), TbsSig: refcfg.S("1.2.3.5"),
+				TbsPubKeyAlg: refcfg.S("1.2.3.6"), TbsPubKey: refcfg.Bin([]byte{9, 9})}
+		})
+		b.KeyFix = "RSA-1024-0"
+		out = append(out, b)
+		b2 := mk("manip-outer-sigalg-rsa-root", func(c *refcfg.CertCfg) {
+			c.Issuer, c.KeyAlg, c.SigAlg = "", "RSA-1024", "RSAwithSHA384"
+			c.Manip = &refcfg.Manip{OuterSigAlg: refcfg.S("1.2.840.113549.1.1.11")}
+		})
+		b2.KeyFix = "RSA-1024-0"
+		out = append(out, b2)
+	}
 	// the same with a profile
 	n := len(out)
 	for i := 0; i < n; i++ {
@@ -543,7 +568,7 @@ func c13World(b c13Base) (*Dir, *simfs.World) {
 	d.Render(w)
 	w.Put("ca1.pem", FixtureKeyPEM("P-224-0"))
 	w.Put("ca2.pem", FixtureKeyPEM("P-224-1"))
-	w.Put(ArtifactPath(b.Cfg.Path), FixtureKeyPEM("P-256-0"))
+	w.Put(ArtifactPath(b.Cfg.Path), b.keyPEM())
 	return d, w
 }
 
@@ -797,6 +822,40 @@ func c13Stability(x *engine.Ctx, base c13Base, h0 string, w0 *simfs.World) {
 		b.Cfg.Path = p
 		check("file-name "+p, b)
 	}
+	// the whole directory under names with more than one dot: pki.v1/ca1.yaml, pki.v1/ca2.yaml, pki.v1/<entity>.v2.yaml
+	{
+		b := c13Clone(base)
+		if b.Cfg.Alias == "" {
+			b.Cfg.Alias = Stem(base.Cfg.Path)
+		}
+		b.Cfg.Path = "pki.v1/" + Stem(base.Cfg.Path) + ".v2.yaml"
+		d := &Dir{Certs: []*refcfg.CertCfg{
+			{Path: "pki.v1/ca1.yaml", Subject: "CN=CA One", KeyAlg: "P-224"},
+			{Path: "pki.v1/ca2.yaml", Subject: "CN=CA Two", KeyAlg: "P-224"},
+			b.Cfg,
+		}}
+		if b.Prof != nil {
+			d.Profiles = []*refcfg.ProfileCfg{b.Prof}
+		}
+		w := simfs.New(simfs.TickPerWrite)
+		d.Render(w)
+		w.Put("pki.v1/ca1.pem", FixtureKeyPEM("P-224-0"))
+		w.Put("pki.v1/ca2.pem", FixtureKeyPEM("P-224-1"))
+		w.Put(ArtifactPath(b.Cfg.Path), b.keyPEM())
+		res := drive.Run(w, drive.Default, nil)
+		x.Eval(1)
+		if a := ReadArtifact(w, b.Cfg.Path); !res.OK() || a.Pem == nil || a.Pem.HashLine == nil {
+			x.Violation("C13/stability/run-failed dim=dotted-names", fmt.Sprintf("base %q: run error %v; hash line in %s: %v", base.Name, res.Err(), ArtifactPath(b.Cfg.Path), a.Pem != nil && a.Pem.HashLine != nil))
+		} else if *a.Pem.HashLine != h0 {
+			x.Violation("C13/hash-unstable dim=dotted-names", fmt.Sprintf("base %q: hash %s in %s, %s originally", base.Name, *a.Pem.HashLine, ArtifactPath(b.Cfg.Path), h0))
+		} else {
+			res = drive.Run(w, drive.Changed, nil)
+			x.Transition(1)
+			if !res.OK() || len(res.Plan) != 0 {
+				x.Violation("C13/unchanged-looks-changed dotted-names", fmt.Sprintf("base %q under pki.v1/ with doubly dotted file names: a generate-changed run after the first run plans %v (%v)", base.Name, res.PlanAliases(), res.Err()))
+			}
+		}
+	}
 	// JSON with the top-level keys in reverse order and the same content under another file name
 	{
 		b := c13Clone(base)
@@ -846,6 +905,23 @@ func c13Stability(x *engine.Ctx, base c13Base, h0 string, w0 *simfs.World) {
 	if !res.OK() || len(res.Plan) != 0 {
 		x.Violation("C13/unchanged-looks-changed re-rendered", fmt.Sprintf("base %q: re-rendered identical configuration: plan %v (%v)", base.Name, res.PlanAliases(), res.Err()))
 	}
+	// in place: the same text saved with CR LF line ends (an editor on another system), config and profile
+	w = w0.Clone()
+	for _, p := range append([]string{base.Cfg.Path}, func() []string {
+		if base.Prof != nil {
+			return []string{base.Prof.Path}
+		}
+		return nil
+	}()...) {
+		if f := w0.Files[p]; f != nil {
+			w.Put(p, bytes.ReplaceAll(f.Data, []byte("\n"), []byte("\r\n")))
+		}
+	}
+	res = drive.Run(w, drive.Changed, nil)
+	x.Transition(1)
+	if !res.OK() || len(res.Plan) != 0 {
+		x.Violation("C13/unchanged-looks-changed crlf", fmt.Sprintf("base %q: identical configuration saved with CR LF line ends: plan %v (%v)", base.Name, res.PlanAliases(), res.Err()))
+	}
 	// in place: profile renamed consistently
 	if base.Prof != nil {
 		b := c13Clone(base)
@@ -872,7 +948,7 @@ func init() {
 	register(&engine.Check{
 		ID:          "C13",
 		Level:       "model_checking",
-		Rule:        fmt.Sprintf("%d base configurations (baseline, root, each optional field, 5 validity shapes, every extension kind with content, raw bodies, an extension list, manipulations; the same under a profile carrying validity and extensions) x (A) stability: re-read at another time and (for validities without from) on another calendar day simulated by a 26-hour shift of the local zone, as x.yaml / sub/dir/y.yml / z.JSON (JSON rendering), under two aliases, under a renamed profile -> identical #HASH line; in place: a later generate-changed run, a re-rendered identical configuration with comments and a consistently renamed profile plan nothing; (B) sensitivity: each of %d single-field edits (set, unset, change of every certificate and profile field; extensions: change kind keeping the raw body, flip critical, change content, reorder, insert, delete, optional/override flips) - relevant iff the reference certificate model changes - must change the hash of a fresh run and make a generate-changed run regenerate the entity in place; all edit pairs on three bases (quick) / on every base (thorough). states = distinct (base, edit) worlds, transitions = in-place runs", len(bases), len(c13Edits())),
+		Rule:        fmt.Sprintf("%d base configurations (baseline, root, each optional field, 5 validity shapes, every extension kind with content, raw bodies, an extension list, manipulations; the same under a profile carrying validity and extensions) x (A) stability: re-read at another time and (for validities without from) on another calendar day simulated by a 26-hour shift of the local zone, as x.yaml / sub/dir/y.yml / z.JSON (JSON rendering), with the whole directory under doubly dotted names (pki.v1/<name>.v2.yaml), under two aliases, under a renamed profile -> identical #HASH line; in place: a later generate-changed run, a re-rendered identical configuration with comments and a consistently renamed profile plan nothing; (B) sensitivity: each of %d single-field edits (set, unset, change of every certificate and profile field; extensions: change kind keeping the raw body, flip critical, change content, reorder, insert, delete, optional/override flips) - relevant iff the reference certificate model changes - must change the hash of a fresh run and make a generate-changed run regenerate the entity in place; all edit pairs on three bases (quick) / on every base (thorough). states = distinct (base, edit) worlds, transitions = in-place runs", len(bases), len(c13Edits())),
 		Bound:       map[string]string{"edits": "single on every base; pairs on 3 bases (quick) / all bases (thorough)"},
 		Assumptions: []string{"hash equality is demanded only for the four dimensions the statement lists (time, file name, own alias, profile name)", "edits between an omitted algorithm and its default are not used (documentation names two defaults)"},
 		Budget:      budgets(quickBudget, thoroughBudget),
